@@ -4,15 +4,13 @@ go 1.24
 
 require github.com/refraction-networking/utls v0.0.0
 
-require (
-	github.com/andybalholm/brotli v1.0.6 // indirect
-	github.com/klauspost/compress v1.17.4 // indirect
-	golang.org/x/sys v0.31.0 // indirect
-)
+require golang.org/x/sys v0.31.0 // indirect
 
 replace github.com/refraction-networking/utls => /repo
 
 require (
+	github.com/andybalholm/brotli v1.0.6
 	github.com/anishathalye/porcupine v1.3.0
+	github.com/klauspost/compress v1.17.4
 	golang.org/x/crypto v0.36.0
 )
